@@ -1009,6 +1009,23 @@ func init() {
 	})
 	reg("(*regexp.Regexp).FindStringSubmatch", func(fr *frame, a []value) value {
 		re := nativeOf(a[0]).(*regexp.Regexp)
+		if _, ok := a[1].(string); !ok {
+			i := fr.i
+			bs := strBytes(a[1])
+			caps := i.regexFindSubmatchIndex(re, bs, 0)
+			if caps == nil {
+				return []value(nil)
+			}
+			groups := make([]value, len(caps)/2)
+			for g := range groups {
+				if caps[2*g] >= 0 && caps[2*g+1] >= 0 {
+					groups[g] = mkStr(append([]value{}, bs[caps[2*g]:caps[2*g+1]]...))
+				} else {
+					groups[g] = ""
+				}
+			}
+			return groups
+		}
 		return nativeToValue(re.FindStringSubmatch(mustString(a[1], "FindStringSubmatch")))
 	})
 	reg("(*regexp.Regexp).String", func(fr *frame, a []value) value {
